@@ -206,7 +206,7 @@ def preloop_store(repo, run):
                     while isinstance(n, ast.Name) and n.id in env_loc and n.id != m.tf and k < 8:
                         n, k = env_loc[n.id], k + 1
                     return n
-                for x, y, ops in ((res(left), res(right), (ast.Gt, ast.GtE)), (res(right), res(left), (ast.Lt, ast.LtE))):
+                for x, y, ops in ((res(left), res(right), (ast.Gt,)), (res(right), res(left), (ast.Lt,))):     # strict: |dt| == |span| is a legal single requested step
                     ax, ay = _abs_arg(x), _abs_arg(y)
                     if ax is not None and ay is not None and isinstance(op, ops) and is_self_attr(res(ax)) and res(ax).attr in ("dt", "__dt") and _is_remaining(m, c, ay):
                         good.append(a)
@@ -216,7 +216,8 @@ def preloop_store(repo, run):
         run.judged(rid, "pre-loop store `%s` under %s" % (src(st)[:60], [a.split("@")[0] for a in atoms]), ok=ok)
         if not ok:
             run.report("C04.6", DS, st, "the requested step is overwritten before the loop under a condition that is not `|self.dt| > |tf - t[counter]|` (atoms: %s): "
-                                        "for some sign of the times or direction a run with |dt| <= |span| no longer takes steps of the requested size" % (
+                                        "for some sign of the times or direction a run with |dt| <= |span| no longer takes steps of the requested size (the comparison must be strict: a requested "
+                                        "step exactly equal to the span is taken as it is)" % (
                                             [a.split("@")[0] for a in atoms],))
 
 
